@@ -87,7 +87,11 @@ func verifOpenOwn(c *Conversation, msg []byte) (info verifDataInfo) {
 		return
 	}
 	their, err := c.keys.pickTheirKey(dm.recipientKeyID)
-	if err != nil || their == nil || their.Sign() == 0 {
+	if err != nil || their == nil {
+		return
+	}
+	if their.Sign() == 0 {
+		info.Weak = true // the sender keys its message from g^0: a secret of 0
 		return
 	}
 	var v otrVersion = otrV3{}
